@@ -75,7 +75,7 @@ func replacements() []replacement {
 	out = append(out,
 		replacement{`[select value=a a="first" b="second" /]`, "first"},
 		replacement{`[select value=b a="first" b="% is b" /]`, "b is b"},
-		replacement{`[select value=2 1="one" 2="née" /]`, "née"},
+		replacement{`[select value=2 1="one" 2="% née" /]`, "2 née"},
 		replacement{`[plural value=1 one="% apple" other="% apples" /]`, "1 apple"},
 		replacement{`[plural value=5 one="% apple" other="% apples" /]`, "5 apples"},
 		replacement{`[nomarkup][b]raw \[x\][/b][/nomarkup]`, `[b]raw \[x\][/b]`},
